@@ -155,8 +155,11 @@ func (e *kvElection) handleWatchEvent(entry Entry) {
 
 	// If we're the leader, check if we're still the leader
 	if e.IsLeader() {
-		// If the new leader ID is different, we've been taken over
-		if newLeaderID != e.cfg.InstanceID {
+		// If the new leader ID is different, we've been taken over - but only if
+		// the event is newer than our own latest write. Watch events may arrive
+		// late: a predecessor's record delivered after our promotion is stale and
+		// must not demote us.
+		if newLeaderID != e.cfg.InstanceID && entry.Revision() > e.revision.Load() {
 			log := e.getLogger()
 			log.Warn("leadership_lost_via_watcher",
 				append(e.logWithContext(e.ctx),
